@@ -96,7 +96,7 @@ def async_episodes(pid, tier, seed):
 def compiled_api(pid, tier, seed):
     """whole compiled-runtime bounded stand-in shared by C09 / C06 / C13: bounded/c09_compiled_api.py restricted to the kinds of `pid`"""
     n = 10 if tier == "quick" else 120
-    res = run_native("c09_compiled_api.py", ["--n", str(n), "--seed", str(seed), "--props", pid], timeout=3000)
+    res = run_native("c09_compiled_api.py", ["--n", str(n), "--seed", str(seed), "--props", pid], timeout=3000 if tier == "quick" else 9000)
     lines, ev, err = report(pid, "the real generate_graphs -> Graph pipeline with probe nodes against the statement", res, "c09_compiled_api.py")
     ev = dict(ev, bound=f"{n} random 3-node systems (rates 2-25 Hz, windows 1-3, all supergraph modes, prune on/off, skip lists, a node whose name extends another's, 1-3 episodes, starting step / episode in and out of range, "
                         "given params, jit on/off, 1-4 steps): run^n vs reset/step^n vs rollout on every field, own step result vs internal step, executed (node, seq) pairs vs the schedule, "
